@@ -65,6 +65,18 @@ def handle (j : Json) : R Json := do
     let reads2 ← (← getArr j "reads2").toList.mapM asHex
     let fin := Rx.run2 (mockAead k1) (mockAead k2) {} reads1 reads2
     pure (Json.mkObj [("closed", Json.bool fin.1.closed), ("out1", jhex fin.2.1), ("out2", jhex fin.2.2)])
+  | "pool" =>
+    -- several connections, reads interleaved: keys[i] = mock key of connection i, sched = [[conn, hex]...]
+    let keys ← (← getArr j "keys").toList.mapM asNat
+    let sched ← (← getArr j "sched").toList.mapM (fun e => do
+      let a ← match e with | .arr a => pure a | _ => throw "pool: bad schedule entry"
+      let i ← asNat (a.getD 0 .null)
+      let d ← asHex (a.getD 1 .null)
+      pure (i, d))
+    let res := Pool.run (fun i => mockAead (keys.getD i 0)) (fun _ => {}) sched
+    let closed := (List.range keys.length).map (fun i => Json.bool (res.1 i).closed)
+    pure (Json.mkObj [("outs", Json.arr (res.2.map (fun (i, o) => Json.arr #[toJson i, jhex o])).toArray),
+      ("closed", Json.arr closed.toArray)])
   | "event" =>
     -- create_hap_event around the given JSON body bytes
     let body ← getHex j "body"
